@@ -53,7 +53,7 @@ func realCall(kind, api, skind, name string, raw bool) *out.Call {
 		panic(err)
 	}
 	if f, ok := out.ParseForest(res); ok && len(f) == 1 {
-		c.Expect = f[0]
+		c.Expect = out.AsWritten(nil, f[0])
 	}
 	return c
 }
@@ -143,6 +143,47 @@ func corpus() []*out.Scenario {
 		}
 		c.Expect = el("", "message", append(append([]out.MAttr(nil), st.Attrs...), own...), v.Kids...)
 		seq(true, realCall("encode", "Encode/real", "", "iq-ping", true), c)
+	}
+	// attribute prefixes of marshaled values (rawTokenReader's binding stack):
+	// siblings for whose different name spaces encoding/xml generates one prefix
+	// ("_" for URNs, the last path segment otherwise), nested re-use, xml: attributes
+	{
+		one, two := "http://example.com/one/meta", "http://example.org/two/meta"
+		seq(false, structCall("encode", "Encode", el("", "iq", []out.MAttr{at("", "m", "c15"), at("", "type", "result")},
+			el("urn:example:payload", "a", []out.MAttr{at(one, "key", "first")}),
+			el("urn:example:payload", "b", []out.MAttr{at(two, "key", "second & last")}),
+			el("urn:example:payload", "c", []out.MAttr{at("urn:a", "k", "1"), at(out.XMLURL, "lang", "en")},
+				el("", "d", []out.MAttr{at("urn:b:x", "k", "2")}, el("", "e", []out.MAttr{at("urn:a", "k", "3"), at("urn:c:x", "k", "4")})),
+				el("", "f", []out.MAttr{at("urn:c:x", "k", "5")}))), nil))
+		seq(true, structCall("encodeelement", "EncodeElement", el("urn:x", "v", []out.MAttr{at(one, "key", "top")},
+			el("", "a", []out.MAttr{at(two, "key", "x")}), el("", "b", []out.MAttr{at("urn:a", "key", "y")}), el("", "c", []out.MAttr{at(one, "key", "z")})),
+			el("", "message", []out.MAttr{at("", "m", "c16"), at(two, "key", "start")})))
+	}
+	// hand-written text (",innerxml"): a prefix re-bound on the next sibling, shadowed
+	// in a nested element and restored after it, declared after its use, inherited
+	// from the element the encoder wrote
+	{
+		text := `<a xmlns:p="urn:1" p:k="1"><b xmlns:p="urn:2" p:k="2"><c p:k="3"/></b><d p:k="4"/></a>` +
+			`<e p:k="5" xmlns:p="urn:3"/><f xmlns:p="urn:4" xmlns:q="urn:1" q:k="6" p:k="7" xml:lang="de"/><g xmlns:_="urn:5" _:k="8">t</g><h _:k="9"/>`
+		top := []out.MAttr{at("", "m", "c17"), at("urn:6", "k", "0")}
+		if c := out.NewInnerXMLCall("encode", out.MName{Local: "message"}, top, text, nil); c != nil {
+			seq(false, c)
+		} else {
+			panic("corpus: innerxml value cannot be marshaled")
+		}
+		// prefixed ELEMENT names in the text
+		ptext := `<p:a xmlns:p="urn:1" p:k="1"><p:b/><q:c xmlns:q="urn:2"><p:d xmlns:p="urn:3"/></q:c><p:e/></p:a><f/>`
+		if c := out.NewInnerXMLCall("encode", out.MName{Local: "message"}, []out.MAttr{at("", "m", "c19")}, ptext, nil); c != nil {
+			seq(false, c)
+		} else {
+			panic("corpus: innerxml value cannot be marshaled")
+		}
+		st := startTok(el("", "presence", []out.MAttr{at("", "m", "c18"), at("urn:2", "k", "s")}))
+		if c := out.NewInnerXMLCall("encodeelement", out.MName{Space: "urn:x", Local: "v"}, []out.MAttr{at("urn:6", "k", "0")}, text, st); c != nil {
+			seq(true, c)
+		} else {
+			panic("corpus: innerxml value cannot be marshaled")
+		}
 	}
 	return scs
 }
